@@ -1,3 +1,4 @@
+mod http;
 mod sched;
 mod storegen;
 mod storerun;
@@ -26,7 +27,7 @@ fn main() {
         "worker" => {
             let dir = PathBuf::from(&args[2]);
             let clock = arg_val(&args, "--clock").map(|s| s.parse().unwrap());
-            worker::run(dir, clock, args.iter().any(|a| a == "--gate-gc"));
+            worker::run(dir, clock, args.iter().any(|a| a == "--gate-gc"), args.iter().any(|a| a == "--http"));
         }
         "store-gen" => {
             let seed: u64 = arg_val(&args, "--seed").map(|s| s.parse().unwrap()).unwrap_or(0);
@@ -46,6 +47,7 @@ fn main() {
             let probes: usize = arg_val(&args, "--probes").map(|s| s.parse().unwrap()).unwrap_or(3);
             let chunk: usize = arg_val(&args, "--chunk").map(|s| s.parse().unwrap()).unwrap_or(0);
             let gate_gc = !args.iter().any(|a| a == "--no-gate-gc");
+            let http = args.iter().any(|a| a == "--http");
             let behs: Vec<Value> = std::io::BufReader::new(std::fs::File::open(inp).unwrap())
                 .lines()
                 .map(|l| l.unwrap())
@@ -65,7 +67,7 @@ fn main() {
                     if i >= behs.len() {
                         break;
                     }
-                    let evs = storerun::run_behaviour(&root.join(format!("b{i}")), &behs[i], gate_gc, probes);
+                    let evs = storerun::run_behaviour(&root.join(format!("b{i}")), &behs[i], gate_gc, probes, http);
                     results.lock().unwrap()[i] = Some(evs);
                 }));
             }
